@@ -72,7 +72,11 @@ LC_FIDS = [0x00, 0x00, 0x00, 0x00, 0x10, 0x68, 0x08, 0x04, 0x80]  # standard, Mo
 
 
 def lc_burst(r, dt, cc, src=None, dst=None):
-    """full link control burst (voice LC header / terminator with LC).  Opcode pool: the protocol's whole FLCO list (group and
+    return data_burst(BPTC19696.encode(lc_bits(r, dt, src, dst)), dt, cc, r.choice(DATA_SYNCS))
+
+
+def lc_bits(r, dt, src=None, dst=None):
+    """96 information bits of a full link control burst (voice LC header / terminator with LC).  Opcode pool: the protocol's whole FLCO list (group and
     unit-to-unit voice in 60 %, else any opcode the element defines: talker alias header / blocks, GPS info, terminator data LC),
     protect flag and feature set id varied; the 56 information bits of the non-addressing opcodes are arbitrary"""
     x = r.random()
@@ -162,6 +166,10 @@ OTHER_CSBKOS = ["BSOutboundActivation", "HyteraIPSCSync", "UnitToUnitVoiceServic
 
 
 def csbk_burst(r, cc, pre=True, btf=None):
+    return data_burst(BPTC19696.encode(csbk_pdu(r, pre, btf).as_bits()), DataTypes.CSBK, cc, r.choice(DATA_SYNCS))
+
+
+def csbk_pdu(r, pre=True, btf=None):
     if pre:
         c = CSBK(csbko=CsbkOpcodes.PreambleCSBK, blocks_to_follow=r.choice([0, 1, 2, 3, 4, 255]) if btf is None else btf,
                  source_address=r.getrandbits(24), target_address=r.getrandbits(24), target_address_is_individual=r.random() < 0.5)
@@ -178,7 +186,7 @@ def csbk_burst(r, cc, pre=True, btf=None):
                 c = None  # values this opcode does not define: not a parseable burst, take the plain one
         if c is None:
             c = CSBK(csbko=CsbkOpcodes.BSOutboundActivation, bs_address=r.getrandbits(24), source_address=r.getrandbits(24))
-    return data_burst(BPTC19696.encode(c.as_bits()), DataTypes.CSBK, cc, r.choice(DATA_SYNCS))
+    return c
 
 
 def rate_burst(r, cc, k=None, shape=None):
